@@ -15,13 +15,14 @@ use std::collections::{BTreeSet, HashMap, VecDeque};
 pub const DEF: PropDef = PropDef {
     id: "C03",
     level: "model_checking",
-    rule: "states = abstract datasets (quads up to blank-node renaming + graph catalog) reached from 3 initial datasets by sequences of requests from a 48-request alphabet executed through SparqlDatabase::execute_update. CORE alphabet (36): the six update forms over default and named graphs, self-referential and swapping templates, graph-variable templates, WHERE with FILTER/UNION/VALUES, blank-node templates (also over WHERE multisets with identical solutions), unbound and literal-subject template variables, and 11 malformed/rejected requests. EXTENSION symbols (12): a template variable in predicate position (IRI legal; literal / blank node = illegal triple, skipped), a template graph variable bound from a non-graph position (creates new graphs; literal / blank node skipped), one request with an unbound variable in every template position of DELETE and INSERT (never a wildcard), blank nodes in INSERT DATA, multi-quad / mixed-graph / graph-variable DELETE WHERE shorthands, a blank node in DELETE WHERE (rejected), two hand-written requests with PREFIX prologue, prefixed names and ';' abbreviation, and a variable GRAPH name in INSERT DATA / DELETE DATA (rejected). Every transition replays the op prefix on a fresh database and compares, after the last step, all quads of all graphs (up to blank-node renaming), the catalog bounds, the UpdateSummary counts and acceptance/rejection with the R-update reference; a rejected request must leave quads and catalog untouched. BFS per (initial dataset, first op) subtree with de-duplication on the abstract state; core-only paths to depth 4 (thorough 6); every extension symbol additionally as the LAST step after every core-only path of length <= 3 (thorough 4); paths with an extension symbol before their last step to depth 3 (thorough 4). Family alt_entry: every path of length <= 2 (thorough 3) additionally executes its LAST request through SparqlDatabase::handle_update, the HTTP update routes (POST application/sparql-update and form-encoded update=) and the legacy execute_query_rayon_parallel2_volcano, same oracle (counts where the entry point reports them; 'Update Failed' => dataset unchanged; no verdict on acceptance of requests the reference rejects, because these adapters accept the legacy aliases by design). Family bnode_collision: the process-global blank-node counter is read by a probe request, the initial dataset is pre-loaded with blank nodes carrying exactly the labels the next 1..5 allocations would produce (every non-empty subset of the 5 offsets), then each blank-node request is applied once and twice; the isomorphism oracle demands that every template blank node is distinct from every node already stored. Distinct non-trivial = distinct reached states holding >=2 quads.",
+    rule: "states = abstract datasets (quads up to blank-node renaming + graph catalog) reached from 4 initial datasets by sequences of requests from a 56-request alphabet executed through SparqlDatabase::execute_update. CORE alphabet (36): the six update forms over default and named graphs, self-referential and swapping templates, graph-variable templates, WHERE with FILTER/UNION/VALUES, blank-node templates (also over WHERE multisets with identical solutions), unbound and literal-subject template variables, and 11 malformed/rejected requests. EXTENSION symbols (20): a template variable in predicate position (IRI legal; literal / blank node = illegal triple, skipped), a template graph variable bound from a non-graph position (creates new graphs; literal / blank node skipped), one request with an unbound variable in every template position of DELETE and INSERT (never a wildcard), blank nodes in INSERT DATA, multi-quad / mixed-graph / graph-variable DELETE WHERE shorthands, a blank node in DELETE WHERE (rejected), two hand-written requests with PREFIX prologue, prefixed names and ';' abbreviation, and a variable GRAPH name in INSERT DATA / DELETE DATA (rejected); 8 symbols over the RELATIVE IRI <k> (stored under the scheme-less lexical form k; the 4th initial dataset holds k as subject, object and predicate, not as graph name): INSERT DATA with k as object only / as subject and predicate / as graph name, DELETE DATA of all of these (leaves k behind as an empty named graph), three rewrites that DELETE every quad holding the bound value in subject / predicate / graph position and INSERT a quad with the same variable there, and one request binding k by VALUES and instantiating it as subject, predicate and graph name. The reference decides the legality of an instantiated template term by the KIND of the bound term alone (an IRI, absolute or relative, is a legal subject / predicate / graph name whatever the store holds, a literal never); the existing symbols that move an object into subject / predicate / graph position (core swap and reverse-insert, extension symbols 0 and 1) thereby bind k in positions where the store has not seen it. Counters rel_*: transitions whose INSERT template puts a relative IRI into subject / predicate / graph position through a variable, split by 'k occurs in that position in the pre-state' / 'absent there but names a pre-state graph' / 'absent', and how many delete its last occurrence there in the same operation. Every transition replays the op prefix on a fresh database and compares, after the last step, all quads of all graphs (up to blank-node renaming), the catalog bounds, the UpdateSummary counts and acceptance/rejection with the R-update reference; a rejected request must leave quads and catalog untouched. BFS per (initial dataset, first op) subtree with de-duplication on the abstract state; core-only paths to depth 4 (thorough 6); every extension symbol additionally as the LAST step after every core-only path of length <= 3 (thorough 4); paths with an extension symbol before their last step to depth 3 (thorough 4). Family alt_entry: every path of length <= 2 (thorough 3) additionally executes its LAST request through SparqlDatabase::handle_update, the HTTP update routes (POST application/sparql-update and form-encoded update=) and the legacy execute_query_rayon_parallel2_volcano, same oracle (counts where the entry point reports them; 'Update Failed' => dataset unchanged; no verdict on acceptance of requests the reference rejects, because these adapters accept the legacy aliases by design). Family bnode_collision: the process-global blank-node counter is read by a probe request, the initial dataset is pre-loaded with blank nodes carrying exactly the labels the next 1..5 allocations would produce (every non-empty subset of the 5 offsets), then each blank-node request is applied once and twice; the isomorphism oracle demands that every template blank node is distinct from every node already stored. Distinct non-trivial = distinct reached states holding >=2 quads.",
     assumptions: &[
-        "alphabet of 48 requests over U (harness/src/props/ugen.rs): 36 core + 12 extension; core-only paths to depth 4 quick / 6 thorough, an extension symbol as last step to depth 4 / 5, extension symbols anywhere to depth 3 / 4",
+        "alphabet of 56 requests over U (harness/src/props/ugen.rs): 36 core + 20 extension; core-only paths to depth 4 quick / 6 thorough, an extension symbol as last step to depth 4 / 5, extension symbols anywhere to depth 3 / 4",
         "de-duplication on the abstract dataset (quads + catalog): sound for this check because it compares the complete physical content through all_quads after every step; index-level divergence is C04's subject; a state first reached through a (depth-limited) extension path is expanded again when a core-only path reaches it",
         "catalog: SPARQL Update leaves the fate of emptied graphs open, so Kolibrie's catalog is only required to contain every graph holding a quad and nothing never named",
         "requests that the SPARQL grammar allows and that have no effect (empty request, literal written as template subject, SELECT) may be refused or accepted as no-ops",
         "bnode_collision: the probe only AIMS the pre-loaded labels (it reads the label format _:kolibrie-update-<n>-<label>); the verdict never depends on the format. If the probe cannot read a counter the family is reported as capped, not as passed",
+        "term kinds: U holds absolute IRIs (http://e/...), the relative IRI <k> and the literals \"1\" \"2\" \"x\"; no request has a BASE, so <k> is kept as written (lexical form k) and is the same IRI wherever it is written. Lexical forms of IRIs and literals are disjoint by construction (checked at start-up), so the reference knows the kind of every stored term although the dictionary under test does not record it; what an implementation does with a literal and an IRI of the SAME spelling is outside this check",
         "reference R-update (harness/src/reference/update.rs), self-tested",
     ],
     run,
@@ -41,7 +42,14 @@ pub fn initial_datasets() -> Vec<Dataset> {
     let mut d2 = Dataset::default();
     d2.default.insert(t(A, P, B));
     d2.named.entry(G1.into()).or_default().insert(t(A, P, B));
-    vec![Dataset::default(), d1, d2]
+    // the relative IRI k (lexical form without a scheme) as subject, as object and as predicate,
+    // NOT as a graph name: whether a template variable bound to k is a legal subject / predicate
+    // is something Kolibrie reads from the stored quads
+    let mut d3 = Dataset::default();
+    d3.default.insert(t(ugen::K, P, A));
+    d3.default.insert(t(A, P, ugen::K));
+    d3.default.insert(t(A, ugen::K, B));
+    vec![Dataset::default(), d1, d2, d3]
 }
 
 /// canonical key of a dataset up to blank-node renaming (blank nodes renumbered by the
@@ -98,6 +106,14 @@ fn canon(ds: &Dataset) -> u64 {
 pub struct StepFail {
     pub symptom: &'static str,
     pub detail: String,
+    /// symptom dataset_differs: what the real database held after the last step
+    pub real_after: Option<Dataset>,
+}
+
+impl StepFail {
+    fn new(symptom: &'static str, detail: String) -> StepFail {
+        StepFail { symptom, detail, real_after: None }
+    }
 }
 
 /// Entry point through which the LAST request of a path is executed (the prefix always goes
@@ -207,7 +223,7 @@ pub fn run_path_entry(alpha: &[Req], init: &Dataset, path: &[usize], entry: Entr
         let this_entry = if last { entry } else { Entry::ExecuteUpdate };
         let res = match exec_last(&mut db, &text, this_entry) {
             Ok(r) => r,
-            Err(p) => return Err(StepFail { symptom: "panic", detail: format!("{} panicked on {:?}: {}", this_entry.name(), text, p) }),
+            Err(p) => return Err(StepFail::new("panic", format!("{} panicked on {:?}: {}", this_entry.name(), text, p))),
         };
         let model_res: Result<(Dataset, Effect), String> = match req.model() {
             Some(u) => update::apply(&model, u, k + 1),
@@ -219,25 +235,22 @@ pub fn run_path_entry(alpha: &[Req], init: &Dataset, path: &[usize], entry: Entr
             match (&res, &model_res) {
                 (Obs::Accepted(_) | Obs::NoVerdict, Ok((m2, eff))) => {
                     if !equal_quads_up_to_bnodes(&after, m2) {
-                        return Err(StepFail { symptom: "dataset_differs", detail: format!("after {:?}\n  real : {:?}\n  model: {:?}", text, after.quads(), m2.quads()) });
+                        return Err(StepFail { symptom: "dataset_differs", detail: format!("after {:?}\n  real : {:?}\n  model: {:?}", text, after.quads(), m2.quads()), real_after: Some(after) });
                     }
                     if let Obs::Accepted(Some((ins, del))) = &res {
                         if *ins != eff.inserted || *del != eff.deleted {
-                            return Err(StepFail {
-                                symptom: "summary_counts_differ",
-                                detail: format!("after {:?}: reported inserted={} deleted={}, actual change inserted={} deleted={}", text, ins, del, eff.inserted, eff.deleted),
-                            });
+                            return Err(StepFail::new("summary_counts_differ", format!("after {:?}: reported inserted={} deleted={}, actual change inserted={} deleted={}", text, ins, del, eff.inserted, eff.deleted)));
                         }
                     }
                     // catalog bounds
                     for (g, ts) in &m2.named {
                         if !ts.is_empty() && !after.named.contains_key(g) {
-                            return Err(StepFail { symptom: "catalog_misses_nonempty_graph", detail: format!("after {:?}: graph {} holds quads but is not listed", text, g) });
+                            return Err(StepFail::new("catalog_misses_nonempty_graph", format!("after {:?}: graph {} holds quads but is not listed", text, g)));
                         }
                     }
                     for g in after.named.keys() {
                         if !m2.named.contains_key(g) && g != G1 && g != G2 {
-                            return Err(StepFail { symptom: "catalog_lists_unknown_graph", detail: format!("after {:?}: graph {} listed but never named", text, g) });
+                            return Err(StepFail::new("catalog_lists_unknown_graph", format!("after {:?}: graph {} listed but never named", text, g)));
                         }
                     }
                     accepted_last = true;
@@ -246,7 +259,7 @@ pub fn run_path_entry(alpha: &[Req], init: &Dataset, path: &[usize], entry: Entr
                 (Obs::Refused(_), Err(_)) => {
                     let b = before.as_ref().unwrap();
                     if &after != b {
-                        return Err(StepFail { symptom: "rejected_update_changed_dataset", detail: format!("{:?} was refused but the dataset changed\n  before: {:?}\n  after : {:?}", text, b, after) });
+                        return Err(StepFail::new("rejected_update_changed_dataset", format!("{:?} was refused but the dataset changed\n  before: {:?}\n  after : {:?}", text, b, after)));
                     }
                 }
                 (Obs::Accepted(sum), Err(why)) => {
@@ -261,18 +274,18 @@ pub fn run_path_entry(alpha: &[Req], init: &Dataset, path: &[usize], entry: Entr
                         let tolerated = matches!(req, Req::Rejected(l, _) if matches!(*l, "empty" | "literal_subject_in_template" | "select_at_update_endpoint"));
                         let noop = matches!(sum, Some((0, 0)) | None) && Some(&after) == before.as_ref();
                         if !(tolerated && noop) {
-                            return Err(StepFail { symptom: "invalid_update_accepted", detail: format!("{:?} must be rejected ({}), but was executed: {:?}", text, why, sum) });
+                            return Err(StepFail::new("invalid_update_accepted", format!("{:?} must be rejected ({}), but was executed: {:?}", text, why, sum)));
                         }
                     }
                 }
                 (Obs::NoVerdict, Err(_)) => {}
                 (Obs::Refused(e), Ok(_)) => {
-                    return Err(StepFail { symptom: "valid_update_rejected", detail: format!("{:?} is a valid update but was refused: {}", text, e) });
+                    return Err(StepFail::new("valid_update_rejected", format!("{:?} is a valid update but was refused: {}", text, e)));
                 }
             }
         } else if let (Obs::Refused(e), Ok(_)) = (&res, &model_res) {
             // cannot happen on a validated prefix; keep the model honest if it does
-            return Err(StepFail { symptom: "valid_update_rejected", detail: format!("prefix step {:?} refused: {}", text, e) });
+            return Err(StepFail::new("valid_update_rejected", format!("prefix step {:?} refused: {}", text, e)));
         }
         if let Ok((m2, _)) = model_res {
             model = m2;
@@ -309,7 +322,134 @@ fn case_json(init: usize, alpha: &[Req], path: &[usize], entry: Entry) -> Value 
     v
 }
 
-fn path_tags(alpha: &[Req], init: usize, path: &[usize], entry: Entry) -> Vec<String> {
+/// The reference's dataset before the LAST step of `path`.
+fn model_prestate(alpha: &[Req], init: &Dataset, path: &[usize]) -> Dataset {
+    let mut model = init.clone();
+    for (k, &oi) in path[..path.len() - 1].iter().enumerate() {
+        if let Some(Ok((m2, _))) = alpha[oi].model().map(|u| update::apply(&model, u, k + 1)) {
+            model = m2;
+        }
+    }
+    model
+}
+
+fn template_has_var_spg(u: &Update) -> bool {
+    let quads: Vec<&crate::reference::sparql_ast::QuadT> = match u {
+        Update::InsertData(_) | Update::DeleteData(_) => Vec::new(),
+        Update::DeleteWhere(q) => q.iter().collect(),
+        Update::Modify { delete, insert, .. } => delete.iter().flatten().chain(insert.iter().flatten()).collect(),
+    };
+    quads.iter().any(|q| q.t.s.is_var() || q.t.p.is_var() || q.g.as_ref().map_or(false, |g| g.is_var()))
+}
+
+fn mentions_relative_iri(ds: &Dataset) -> bool {
+    let rel = |t: &(String, String, String)| update::is_relative_iri(&t.0) || update::is_relative_iri(&t.1) || update::is_relative_iri(&t.2);
+    ds.named.keys().any(|g| update::is_relative_iri(g)) || ds.default.iter().any(rel) || ds.named.values().any(|g| g.iter().any(rel))
+}
+
+/// Per request, computed once: (a template has a variable in subject / predicate / graph
+/// position, the request text mentions a relative IRI).
+fn relative_screen(alpha: &[Req]) -> Vec<(bool, bool)> {
+    alpha
+        .iter()
+        .map(|r| {
+            let text = r.text();
+            (r.model().map_or(false, template_has_var_spg), update::RELATIVE_IRIS.iter().any(|k| text.contains(&format!("<{}>", k))))
+        })
+        .collect()
+}
+
+/// Structural facts about one transition (pre-state + request, reference side only): the relative
+/// IRIs its templates put, through a VARIABLE, into subject / predicate / graph position.
+/// None = no such binding.
+fn relative_facts(pre: &Dataset, req: &Req, screen: (bool, bool)) -> Option<update::RelReport> {
+    let u = req.model()?;
+    if !screen.0 || !(screen.1 || mentions_relative_iri(pre)) {
+        return None;
+    }
+    update::relative_iri_bindings(pre, u).filter(|r| !r.bindings.is_empty())
+}
+
+/// Vacuity counters of the relative-IRI symbols, counted over EVERY executed transition of the main
+/// search (passing or failing): does an INSERT template put a relative IRI into subject /
+/// predicate / graph position through a variable; is the IRI there in the pre-state; does the same
+/// operation delete its last occurrence there.
+fn note_relative(out: &mut ShardOut, pre: &Dataset, req: &Req, screen: (bool, bool)) {
+    let Some(rep) = relative_facts(pre, req, screen) else { return };
+    if rep.bindings.iter().any(|b| b.insert) {
+        out.count("rel_transitions_insert_template_binds_relative_iri", 1);
+    }
+    if rep.bindings.iter().any(|b| !b.insert) {
+        out.count("rel_transitions_delete_template_binds_relative_iri", 1);
+    }
+    for b in rep.bindings.iter().filter(|b| b.insert) {
+        let pos = b.pos.name();
+        out.count(&format!("rel_insert_binds_in_{}", pos), 1);
+        if b.present {
+            out.count(&format!("rel_insert_binds_in_{}_present_there_in_prestate", pos), 1);
+        } else if b.names_graph {
+            out.count(&format!("rel_insert_binds_in_{}_absent_there_but_names_a_prestate_graph", pos), 1);
+        } else {
+            out.count(&format!("rel_insert_binds_in_{}_absent_there_in_prestate", pos), 1);
+        }
+        if b.pos == update::Pos::Graph && b.present && pre.named.get(&b.iri).map_or(false, |g| g.is_empty()) {
+            out.count("rel_insert_binds_in_graph_naming_an_empty_prestate_graph", 1);
+        }
+        if b.last_occurrence_deleted {
+            out.count(&format!("rel_insert_binds_in_{}_last_occurrence_deleted_by_same_operation", pos), 1);
+        }
+    }
+    if !rep.inserts_only_via_unseen.is_empty() {
+        out.count("rel_transitions_inserting_only_via_unseen_relative_iri", 1);
+    }
+}
+
+/// Tags of a failing transition that binds a relative IRI (computed from pre-state + request; the
+/// last one relates these facts to the observed dataset).
+fn relative_tags(pre: &Dataset, req: &Req, step: usize, real_after: Option<&Dataset>) -> Vec<String> {
+    let mut tags = Vec::new();
+    let screen = relative_screen(std::slice::from_ref(req))[0];
+    let Some(rep) = relative_facts(pre, req, screen) else { return tags };
+    let ins: Vec<&update::RelBinding> = rep.bindings.iter().filter(|b| b.insert).collect();
+    if ins.is_empty() {
+        tags.push("only_delete_template_binds_relative_iri".into());
+        return tags;
+    }
+    tags.push("template_binds_relative_iri".into());
+    for b in &ins {
+        tags.push(format!("binds_relative_iri_in={}", b.pos.name()));
+    }
+    if ins.iter().any(|b| !b.present) {
+        tags.push("relative_iri_absent_from_that_position_in_prestate".into());
+    } else {
+        tags.push("every_bound_relative_iri_present_in_that_position_in_prestate".into());
+    }
+    if ins.iter().any(|b| !b.present && !b.names_graph) {
+        tags.push("absent_relative_iri_names_no_prestate_graph".into());
+    }
+    if ins.iter().any(|b| b.last_occurrence_deleted) {
+        tags.push("operation_deletes_last_occurrence_of_bound_relative_iri".into());
+    }
+    // the observed dataset is the reference's minus exactly the quads that only such a binding produces
+    if let (Some(real), false, Some(u)) = (real_after, rep.inserts_only_via_unseen.is_empty(), req.model()) {
+        if let Ok((m2, _)) = update::apply(pre, u, step) {
+            let mut expected = m2.clone();
+            for q in &rep.inserts_only_via_unseen {
+                if q.3.is_empty() {
+                    expected.default.remove(&(q.0.clone(), q.1.clone(), q.2.clone()));
+                } else if let Some(g) = expected.named.get_mut(&q.3) {
+                    g.remove(&(q.0.clone(), q.1.clone(), q.2.clone()));
+                }
+            }
+            if equal_quads_up_to_bnodes(real, &expected) {
+                tags.push("real_lacks_exactly_the_inserts_binding_an_unseen_relative_iri".into());
+            }
+        }
+    }
+    tags
+}
+
+fn path_tags(alpha: &[Req], inits: &[Dataset], init: usize, path: &[usize], entry: Entry, f: &StepFail) -> Vec<String> {
     let li = *path.last().unwrap();
     let mut tags = vec![format!("op={}", alpha[li].label()), format!("initial={}", init)];
     if li >= ugen::CORE_LEN {
@@ -318,6 +458,8 @@ fn path_tags(alpha: &[Req], init: usize, path: &[usize], entry: Entry) -> Vec<St
     if entry != Entry::ExecuteUpdate {
         tags.push(format!("entry={}", entry.name()));
     }
+    let pre = model_prestate(alpha, &inits[init], path);
+    tags.extend(relative_tags(&pre, &alpha[li], path.len(), f.real_after.as_ref()));
     tags
 }
 
@@ -325,7 +467,8 @@ fn record_fail(out: &mut ShardOut, alpha: &[Req], inits: &[Dataset], init: usize
     // determinism before verdict
     match run_path_entry(alpha, &inits[init], path, entry) {
         Err(f2) if f2.symptom == f.symptom => {
-            out.fail(case_json(init, alpha, path, entry), f.symptom, f.detail, path_tags(alpha, init, path, entry));
+            let tags = path_tags(alpha, inits, init, path, entry, &f);
+            out.fail(case_json(init, alpha, path, entry), f.symptom, f.detail, tags);
         }
         other => out.machinery_errors.push(format!("non-deterministic verdict on path {:?} via {}: first {:?}, then {:?}", path, entry.name(), f.symptom, other.err().map(|e| e.symptom))),
     }
@@ -355,10 +498,10 @@ fn note_extension(out: &mut ShardOut, alpha: &[Req], path: &[usize], o: &PathOut
             if objs.iter().any(|v| v.starts_with("_:")) {
                 out.count(&format!("ext_{}_bound_to_blank_node_skipped", what), 1);
             }
-            if objs.iter().any(|v| !v.starts_with("_:") && !update::is_iri_like(v)) {
+            if objs.iter().any(|v| !v.starts_with("_:") && !update::is_iri(v)) {
                 out.count(&format!("ext_{}_bound_to_literal_skipped", what), 1);
             }
-            if objs.iter().any(|v| update::is_iri_like(v)) {
+            if objs.iter().any(|v| update::is_iri(v)) {
                 out.count(&format!("ext_{}_bound_to_iri", what), 1);
             }
             if k == 1 && o.model.named.len() > o.pre_model.named.len() {
@@ -386,6 +529,11 @@ fn run(ctx: &Ctx) -> ShardOut {
     let max_depth = if ctx.thorough() { 6 } else { 4 };
     let ext_depth = if ctx.thorough() { 4 } else { 3 };
     let alt_depth = if ctx.thorough() { 3 } else { 2 };
+    if let Err(e) = ugen::lexical_spaces_disjoint() {
+        out.machinery_errors.push(format!("term universe: {}", e));
+        return out;
+    }
+    let screen = relative_screen(&alpha);
     out.count("max_alphabet_size", alpha.len() as u64);
     out.count("max_core_alphabet_size", ugen::CORE_LEN as u64);
     // an extension symbol as the LAST step of an otherwise core-only path may come later
@@ -417,12 +565,14 @@ fn run(ctx: &Ctx) -> ShardOut {
             match run_path_entry(&alpha, &inits[init], &path0, Entry::ExecuteUpdate) {
                 Ok(o) => {
                     note_extension(&mut out, &alpha, &path0, &o);
+                    note_relative(&mut out, &o.pre_model, &alpha[first], screen[first]);
                     seen.insert(hash64(&(canon(&o.real), canon(&o.model))), !is_ext(first));
                     note_state(&mut out, &o.real, &alpha, init, &path0);
                     alt_entries(&mut out, &alpha, &inits, init, &path0);
                     frontier.push_back(path0);
                 }
                 Err(f) => {
+                    note_relative(&mut out, &inits[init], &alpha[first], screen[first]);
                     record_fail(&mut out, &alpha, &inits, init, &path0, Entry::ExecuteUpdate, f);
                     continue;
                 }
@@ -445,6 +595,7 @@ fn run(ctx: &Ctx) -> ShardOut {
                         Ok(o) => {
                             out.count(if o.accepted { "accepted_steps" } else { "refused_steps" }, 1);
                             note_extension(&mut out, &alpha, &p2, &o);
+                            note_relative(&mut out, &o.pre_model, &alpha[oi], screen[oi]);
                             let core_only = !p2.iter().any(|x| is_ext(*x));
                             let key = hash64(&(canon(&o.real), canon(&o.model)));
                             let fresh = match seen.get(&key) {
@@ -472,7 +623,10 @@ fn run(ctx: &Ctx) -> ShardOut {
                                 }
                             }
                         }
-                        Err(f) => record_fail(&mut out, &alpha, &inits, init, &p2, Entry::ExecuteUpdate, f),
+                        Err(f) => {
+                            note_relative(&mut out, &model_prestate(&alpha, &inits[init], &p2), &alpha[oi], screen[oi]);
+                            record_fail(&mut out, &alpha, &inits, init, &p2, Entry::ExecuteUpdate, f)
+                        }
                     }
                 }
             }
@@ -658,11 +812,14 @@ fn note_state(out: &mut ShardOut, real: &Dataset, alpha: &[Req], init: usize, pa
     if real.quads().iter().any(|q| q.0.starts_with("_:") || q.2.starts_with("_:")) {
         out.count("states_with_blank_nodes", 1);
     }
-    if real.quads().iter().any(|q| q.1 != P && q.1 != Q) {
+    if real.quads().iter().any(|q| q.1 != P && q.1 != Q && !update::is_relative_iri(&q.1)) {
         out.count("states_with_template_made_predicate", 1);
     }
-    if real.named.keys().any(|g| g != G1 && g != G2) {
+    if real.named.keys().any(|g| g != G1 && g != G2 && !update::is_relative_iri(g)) {
         out.count("states_with_template_made_graph", 1);
+    }
+    if mentions_relative_iri(real) {
+        out.count("states_with_relative_iri", 1);
     }
     if out.states % 400 == 3 {
         out.sample(case_json(init, alpha, path, Entry::ExecuteUpdate));
